@@ -1,3 +1,76 @@
 import Driver.Common
--- stub driver (not yet implemented)
-def main : IO Unit := Driver.run () (fun s _ => (s, "bad-op"))
+import SSV.Model.Stats
+open SSV SSV.Stats SSV.Gen.C14
+
+/-
+Line protocol of ssv_c14 (one answer line per input line):
+  new <cred users, comma separated | ->        -> ok
+  tcp|udpdown|udpup <user | -> <x0> <x1>       -> ok          ("-" = the empty username)
+  snap | reset                                 -> T=<6 values> U=<name>:<6 values>;…   (Snapshot / SnapshotAndReset)
+  stats <n> <v1> … <vn>                        -> 200 <json pairs sorted by key> users=[username=<name>,<pairs>;…]
+                                                  (n `clear` query values, "E" = the empty string)
+  user <name>                                  -> 404 | 200 username=<name> <json pairs sorted by key>
+-/
+
+structure DState where
+  sh : Shared
+  creds : List String
+
+def vals (c : Counters) : String :=
+  ",".intercalate (Field.all.map (fun f => toString (c f)))
+
+def insStr (e : String × Nat) : List (String × Nat) → List (String × Nat)
+  | [] => [e]
+  | x :: xs => if e.1 < x.1 then e :: x :: xs else x :: insStr e xs
+
+def jsonPairs (c : Counters) : String :=
+  let ps := (Field.all.map (fun f => (f.jsonName, c f))).foldr insStr []
+  ",".intercalate (ps.map (fun p => s!"{p.1}={p.2}"))
+
+def showResult (r : Result) : String :=
+  "T=" ++ vals r.total ++ " U=" ++ ";".intercalate (r.users.map (fun e => s!"{e.1}:{vals e.2}"))
+
+def showStats (r : Result) : String :=
+  "200 " ++ jsonPairs r.total ++ s!" {usersJSONName}=[" ++
+    ";".intercalate (r.users.map (fun e => s!"{usernameJSONName}={e.1},{jsonPairs e.2}")) ++ "]"
+
+/-- rebuild the store as a table look-up (keeps the closure chain short in long scripts) -/
+def compact (sh : Shared) : Shared :=
+  let tab : List (Target × List (Field × Nat)) :=
+    (Target.anon :: sh.names.map Target.user).map (fun t => (t, Field.all.map (fun f => (f, sh.ctr t f))))
+  { sh with ctr := fun t f =>
+      match tab.find? (fun e => e.1 == t) with
+      | some e => match e.2.find? (fun p => p.1 == f) with
+        | some p => p.2
+        | none => 0
+      | none => 0 }
+
+def uname (s : String) : String := if s == "-" then "" else s
+
+def callOf : String → Option Call
+  | "tcp" => some .tcp
+  | "udpdown" => some .udpDown
+  | "udpup" => some .udpUp
+  | _ => none
+
+def stepC14 (st : DState) (line : String) : DState × String :=
+  match fields line with
+  | ["new", cs] => ({ sh := Shared.init, creds := if cs == "-" then [] else (cs.splitOn ",") }, "ok")
+  | [op, u, a, b] =>
+    match callOf op, a.toNat?, b.toNat? with
+    | some c, some x0, some x1 => ({ st with sh := compact (doCollect st.sh c (uname u) x0 x1) }, "ok")
+    | _, _, _ => (st, "bad-op")
+  | ["snap"] => let (sh, r) := doSnapshot st.sh false; ({ st with sh := compact sh }, showResult r)
+  | ["reset"] => let (sh, r) := doSnapshot st.sh true; ({ st with sh := compact sh }, showResult r)
+  | "stats" :: n :: vs =>
+    if n.toNat? == some vs.length then
+      let (sh, r) := apiStats st.sh (vs.map (fun v => if v == "E" then "" else v))
+      ({ st with sh := compact sh }, showStats r)
+    else (st, "bad-op")
+  | ["user", u] =>
+    match apiUser st.sh (st.creds.contains u) u with
+    | some c => (st, s!"200 {usernameJSONName}={u} {jsonPairs c}")
+    | none => (st, "404")
+  | _ => (st, "bad-op")
+
+def main : IO Unit := Driver.run ({ sh := Shared.init, creds := [] } : DState) stepC14
